@@ -77,9 +77,23 @@ def gen(tier, rng):
                                                 for _ in range(k)]}
 
 
+def gen_histories(tier, rng):
+    """sequences in which a write is REPEATED after an overlapping one (the last write must win), or repeated back to back, or rewritten with other data"""
+    for copier in (False, True):
+        for _ in range(30 if tier == "thorough" else 8):
+            base = rng.choice([0, 0x8000, 0x1FE00, rng.randrange(0, 0xF00000)])
+            n = rng.choice([1, 2, 5, 26, 300])
+            sa, sb = rng.randrange(256), rng.randrange(256)
+            a = (base, n, sa)
+            inner = (base + rng.randrange(0, n), rng.randint(1, 3), sb)
+            yield {"copier": copier, "blocks": [a, inner, a]}
+            yield {"copier": copier, "blocks": [a, a]}
+            yield {"copier": copier, "blocks": [a, (base, n, sb), a, inner]}
+
+
 def run(tier, seed):
     rng = random.Random(seed)
-    cases = list(gen(tier, rng))
+    cases = list(gen(tier, rng)) + list(gen_histories(tier, rng))
     failures = []
     for c in cases:
         f = check(c)
@@ -87,7 +101,7 @@ def run(tier, seed):
             failures.append({"ident": "bounded/ips-roundtrip", "script": "b_C11.py", "payload": c, "observed": f})
     return {"evaluations": len(cases), "distinct_nontrivial": len({str(c) for c in cases}),
             "rule": "block sequences (lengths 0, 1, around every multiple of 65535; addresses 0 .. beyond 2^24 incl. 0x454F46 and 0xFE00-type copier carries; "
-                    "with/without copier header; 1-5 blocks) written by the real IPSWriter to a real BytesIO, parsed by an independent reader",
+                    "with/without copier header; 1-5 blocks; repeated / overlapping / rewritten blocks) written by the real IPSWriter to a real BytesIO, parsed by an independent reader",
             "samples": cases[:2], "failures": failures}
 
 
